@@ -116,7 +116,8 @@ class BuiltinStructureMaker(StructureMaker):
         name = field.id
         if schema.trim_trailing_underscore and name.endswith("_") and not name.endswith("__"):
             name = name.rstrip("_")
-        if schema.name_style is not None:
+        if schema.name_style is not None and name.strip("_"):
+            # a name made of underscores only (`_`, `__`) has no words to restyle and is kept
             name = convert_snake_style(name, schema.name_style)
         return name
 
